@@ -130,6 +130,67 @@ def parallel_simulation(system, index, spec_json, seed):
     system.simulate(spec['horizon'][0], print_summary=False)
     system.h_index = index
     system.h_digest = digest(m, base)
+    # The system travels back to the caller by pickling.  Detach the harness log from the objects that are
+    # pickled first, so that the object graph is traversed the way a user's plain model is (device -> env ->
+    # pending events -> scheduler -> registry keyed by that device), not through the harness's own references.
+    m.log.env = None
+    m.log.bus = None
+
+
+def shift_action(scheduler, obj, time, state):
+    if state:
+        obj.restore_functionality()
+    else:
+        obj.shutdown()
+
+
+def plain_digest(system):
+    base = getattr(system, 'h_base', 0)
+    data = {}
+    for label, table in system.simulation_data.items():
+        out = {}
+        for k, v in table.items():
+            rows = []
+            for r in v:
+                r = list(r)
+                if label in ('received_part', 'produced_part', 'supplied_new_part', 'device_failure') \
+                        and len(r) > 1 and isinstance(r[1], int):
+                    r[1] -= base          # ids are numbered from wherever the process-wide counter stood
+                rows.append([repr(x) if not isinstance(x, (int, float, str, type(None), bool)) else x for x in r])
+            out[str(k)] = rows
+        data[label] = out
+    return json.dumps({'data': data, 'now': system.env.now}, sort_keys=True, default=repr)
+
+
+def plain_simulation(system, index, params, seed):
+    """A model built only from the library's own classes, the way a user writes one: the returned System is
+    pickled with nothing of the harness inside it."""
+    from simprocesd.model.factory_floor import (Source, PartProcessor, Buffer, Sink, ActionScheduler, Maintainer,
+                                                PartGenerator)
+    from simprocesd.model.sensors import PeriodicSensor, AttributeProbe
+    from simprocesd.model.factory_floor.asset import Asset
+    system.h_base = Asset._id_counter
+    random.seed(seed + index)
+    rm = system.resource_manager
+    rm.add_resources('op', params['operators'])
+    src = Source(name='S', part_generator=PartGenerator('p', value=1.0), cycle_time=params['src_ct'])
+    m1 = PartProcessor(name='M1', upstream=[src], cycle_time=params['ct1'], resources_for_processing={'op': 1})
+    m2 = PartProcessor(name='M2', upstream=[src], cycle_time=params['ct2'], resources_for_processing={'op': 1})
+    buf = Buffer(name='B', upstream=[m1, m2], capacity=params['cap'])
+    m3 = PartProcessor(name='M3', upstream=[buf], cycle_time=params['ct3'])
+    Sink(name='K', upstream=[m3])
+    if params['scheduler']:
+        sched = ActionScheduler([(params['on'], True), (params['off'], False)], name='shift')
+        sched.register_object(m1, shift_action)
+        sched.register_object(m3)
+    mt = Maintainer(name='mt', capacity=1)
+    if params['sensor']:
+        PeriodicSensor(1.5, [AttributeProbe('uptime', m3)], name='ps', data_capacity=5)
+    for t in params['orders']:
+        system.env.schedule_event(t, mt.id, lambda: mt.create_work_order(m3, 'x'), 3)
+    system.simulate(params['horizon'], print_summary=False)
+    system.h_index = index
+    system.h_digest = plain_digest(system)
 
 
 def run(sh):
@@ -217,6 +278,30 @@ def run(sh):
                     break
                 sh.count('parallel_results_compared', nsim)
             sh.count('parallel_calls', 5)
+            # the same with a model made of library classes only
+            params = {'operators': rng.choice([1, 2]), 'src_ct': rng.choice([0.5, 1]), 'ct1': rng.choice([1, 2, 3]),
+                      'ct2': rng.choice([1.5, 2.5]), 'ct3': rng.choice([0.5, 1]), 'cap': rng.choice([1, 3]),
+                      'scheduler': rng.random() < 0.7, 'on': rng.choice([4, 6]), 'off': rng.choice([1, 2]),
+                      'sensor': rng.random() < 0.5, 'orders': sorted(rng.sample(range(1, 30), 2)),
+                      'horizon': float(rng.choice([30, 40]))}
+            pcase = {'engine': 'parallel_plain', 'params': params, 'seed': seed, 'n': nsim}
+            pref = System.simulate_multiple_times(plain_simulation, nsim, 0, params, seed)
+            for mp in (1, 3, None):
+                pres = System.simulate_multiple_times(plain_simulation, nsim, mp, params, seed)
+                if [getattr(x, 'h_index', None) for x in pres] != list(range(nsim)):
+                    sh.violation('index_order', f'plain model, max_processes={mp}: order '
+                                 f'{[getattr(x, "h_index", None) for x in pres]}', dict(pcase, max_processes=mp),
+                                 engine='parallel')
+                    break
+                bad = [k for k in range(nsim) if pres[k].h_digest != pref[k].h_digest
+                       or plain_digest(pres[k]) != pref[k].h_digest]
+                if bad:
+                    sh.violation('parallel_differs', f'plain model, max_processes={mp}: simulation {bad[0]} differs: '
+                                 f'{first_diff(pref[bad[0]].h_digest, plain_digest(pres[bad[0]]))}',
+                                 dict(pcase, max_processes=mp), engine='parallel')
+                    break
+                sh.count('parallel_results_compared', nsim)
+                sh.count('plain_parallel_results_compared', nsim)
             sh.case_done({'spec_hash': core.case_hash(spec), 'seed': seed, 'par': True}, len(set(refd)) > 1,
                          sample={'parallel': True, 'n': nsim, 'distinct_results': len(set(refd))})
         except Exception as e:
